@@ -135,7 +135,11 @@ def _install_interceptors():
             dn = float(np.max(np.abs(a[3]))) if len(a) > 3 else float(np.max(np.abs(k["d"])))
         except Exception:  # noqa: BLE001
             dn = float("nan")
-        act.ls_log.append((ev0, act.n_events, None if r is None else float(r), dn))
+        try:
+            xb = hashlib.sha256(np.ascontiguousarray(a[0] if a else k["x0"], dtype=float).tobytes()).hexdigest()[:16]
+        except Exception:  # noqa: BLE001
+            xb = None
+        act.ls_log.append((ev0, act.n_events, None if r is None else float(r), dn, xb))
         return r
 
     def update_lbfgs_matrices(*a, **k):
